@@ -268,7 +268,41 @@ def run(ctx):
                     if nz is not None:
                         ctx.violation(f'seek-fault-{nth}-{en}.json', dict(kind='next_sparse_segments', plan=f'fail lseek {nth} {en}', segments=segs, impl=a),
                                       f'libfs hides data: the {nth}th lseek failed with {en} and next_sparse_segments still answered {a[:80]!r}: byte {nz} is data outside every reported range')
-    ctx.cov['rule'] = ('(files: + layouts of 2048..2100 (thorough 6500) extents; + data beyond 4 GiB; + every lseek of a segment search failing with EINVAL/EIO) merge: exhaustive well-formed lists over a small offset universe + random lists (long, shared flags, malformed, near u64::MAX); '
+        # (4) extent mapping that is INTERRUPTED (EINTR/EAGAIN) or answered in short, non-final pages (allowed by the FIEMAP ABI):
+        # the map is either complete or an error — never silently cut off
+        p49 = f'{d}/ext49'
+        segs49 = [(2 * i * K, (2 * i + 1) * K) for i in range(49)]
+        fsutil.make_file(p49, 49 * 2 * K + 300, segs49 + [(49 * 2 * K, 49 * 2 * K + 300)], seed=123)
+        for nth in (1, 2, 3):
+            for en in ('EINTR', 'EAGAIN'):
+                tf, pf = f'{d}/trace', f'{d}/plan'
+                open(pf, 'w').write(f'fail ioctl fiemap {nth} {E[en]}\ntimeout 30000\n')
+                pr = subprocess.run([core.SUP, '-o', tf, '-p', pf, '--', probe], input=f'file-extents {p49}\n', capture_output=True, text=True, timeout=90, env=core.ENV)
+                a = pr.stdout.strip().split('\n')[-1] if pr.stdout.strip() else 'no-answer'
+                trace, _ = scen.parse_trace(tf)
+                fired = any(e.get('inj') for e in trace)
+                ctx.count('fiemap_interrupted.' + ('fired' if fired else 'not_fired')); ctx.count('fiemap_interrupted.answer.' + a.split()[0]); ctx.case(('fiemap-interrupted', nth, en), fired)
+                if fired and a.startswith('ok'):
+                    nz = fsutil.nonzero_outside(p49, [(x, y) for x, y, _ in parse(a)])
+                    if nz is not None:
+                        ctx.violation(f'fiemap-interrupted-{nth}-{en}.json', dict(kind='map_extents', plan=f'fail ioctl fiemap {nth} {en}', extents=50, impl=a[:300]),
+                                      f'libfs hides data: the {nth}th FIEMAP call failed with {en} and map_extents still answered with a map: byte {nz} is data outside every reported range')
+        shim = core.build_shim()
+        for cap in (10, 1, 31, 7):
+            for pth, nseg in ((p49, 50), (f'{d}/f6', None)):
+                if not os.path.exists(pth):
+                    continue
+                pr = subprocess.run([probe], input=f'file-extents {pth}\n', capture_output=True, text=True, timeout=90, env=dict(core.ENV, LD_PRELOAD=shim, FIEMAP_SHORT_MAX=str(cap)))
+                a = pr.stdout.strip().split('\n')[-1] if pr.stdout.strip() else 'no-answer'
+                ctx.count('fiemap_short_pages.answer.' + a.split()[0]); ctx.case(('fiemap-short-pages', cap, os.path.basename(pth)), True)
+                if a.startswith('ok'):
+                    nz = fsutil.nonzero_outside(pth, [(x, y) for x, y, _ in parse(a)])
+                    if nz is not None:
+                        ctx.violation(f'fiemap-short-{cap}-{os.path.basename(pth)}.json', dict(kind='map_extents', shim=f'FIEMAP answers at most {cap} extents per call, none flagged last unless final', impl=a[:300]),
+                                      f'libfs hides data when FIEMAP answers in short pages of {cap}: byte {nz} of {os.path.basename(pth)} is data outside every reported range')
+                else:
+                    ctx.violation(f'fiemap-short-{cap}-err.json', dict(impl=a), f'map_extents failed when FIEMAP answers in short pages of {cap}: {a[:100]}', no_input=True)
+    ctx.cov['rule'] = ('(files: + layouts of 2048..2100 (thorough 6500) extents; + data beyond 4 GiB; + every lseek of a segment search failing with EINVAL/EIO; + FIEMAP interrupted or answered in short non-final pages through an LD_PRELOAD shim) merge: exhaustive well-formed lists over a small offset universe + random lists (long, shared flags, malformed, near u64::MAX); '
                        'files: fixed boundary layouts (0, 1, 32, 33, 64, 70 extents; data at start/end; odd sizes) + random layouts on ext4. '
                        'distinct = distinct input; non-trivial = at least two extents (merge) / at least one data segment (files)')
 
